@@ -1,4 +1,5 @@
 import Cello.Cmp
+import Cello.CmpSrc
 import CelloGen.Cmp
 import CelloGen.CmpLoops
 import Driver.Common
@@ -268,15 +269,34 @@ where
 def runnableObj (a b : Obj) : Bool :=
   a.content.valid && b.content.valid && (okPair a b || (a.content.ctype == 4 && b.content.ctype == 4))
 
+/-- second opinion on top-level comparisons of two Strings, two Types, or with a plain struct as `self`: the programs
+    TRANSLATED from String_Cmp / Type_Cmp / `cmp` of Cmp.c (Cello/CmpSrc.lean, over a libc that answers -1/0/1) against the
+    hand model.  `S` lines are not compared with the harness; vlib/props/c09.py requires `ok=1` and counts the arms. -/
+def secondOpinion (a b : Obj) (r : Option Res) : IO Unit := do
+  let va := a.content; let vb := b.content
+  match srcSecondOpinion va vb with
+  | none => pure ()
+  | some src =>
+    let via := match va with
+      | .str _ => "string" | .typ _ => "type"
+      | _ => if dispatchArm va vb == 1 then "memcmp" else "typeerror"
+    let same := match r, src with
+      | some (.ok c), .ok d => sgn c == d
+      | some (.exc x), .exc y => x == y
+      | _, _ => false
+    IO.println s!"S cmp via={via} src={showRes (some src)} ok={if same then 1 else 0}"
+
 def doCmp (a b : Obj) : IO Unit := do
   let r1 := cmpObj disc ops a b
   let r2 := cmpObj disc ops b a
   if isExc r1 || isExc r2 then
     IO.println s!"O cmp exc={showRes r1} rexc={showRes r2}"
+    secondOpinion a b r1; secondOpinion b a r2
   else
     -- the predicates are the generated definitions applied to the model's cmp (sign-preserving: they only test against 0)
     IO.println s!"O cmp s={showSign (resSign r1)} rs={showSign (resSign r2)} {predsText a b r1.isNone}"
     IO.println s!"R cmp s={refCmp a.content b.content} rs={refCmp b.content a.content}"
+    secondOpinion a b r1; secondOpinion b a r2
 
 def doLcmp (a b : Obj) : IO Unit := do
   let r1 := cmpObj disc ops a b
